@@ -113,3 +113,11 @@ CHECKS["C12"] = dict(
           "commit/tag/push on against the fake git (every 4th: hg) with hostile message templates and file names; every mutating VCS invocation is an `argv` event whose expected "
           "argv the trace spec builds from the command table and the rendered template; hg's message is read from the --logfile file; staged paths must be the configured ones."),
     note=_NOTE, ref="DESIGN.md section 6, C12")
+CHECKS["C09"] = dict(
+    technique="TLA+ spec of start-version resolution and the uniqueness gate (BVResolve, MC_C09) model-checked with TLC + trace validation of `show`/`update --dry` over tag sets (fake and real git)",
+    text=("Design level: per pattern a universe of 8 tag texts (valid below/equal/above the config value, a PEP 440-equal respelling, another scheme, junk, trailing junk, an impossible "
+          "date), every placement of up to 4 of them on two branches x 3 scopes x --ignore-vcs-tag x 3 config values; invariants StartIsMaxInScope, ConfigWhenNoTagMatches, JunkIsInert, "
+          "NewIsFresh (this is where the missing uniqueness check under --ignore-vcs-tag, S14, appeared as a one-tag counterexample). Conformance: seeded tag sets of 0..6 (thorough 30) tags "
+          "are served by a fake git (and built as real git repositories with two branches on a sample); `show` and `update --dry` run with and without the non-matching tags; the trace spec "
+          "recomputes the start version with its own recogniser and PEP 440 order and checks maximality, membership, inertness of junk and freshness of the announced version."),
+    note=_NOTE, ref="DESIGN.md section 6, C09")
